@@ -2,6 +2,7 @@ import LyModel.Props.C07
 import LyModel.Valid.ValApply
 import LyModel.Valid.LemmasValdiff
 import LyModel.Valid.LemmasValdiffFresh
+import LyModel.Valid.LemmasValdiffQuiet
 /-!
 # C07 `valdiff_exact` — the change set a validation returns, applied to the input tree, gives the validated tree
 
@@ -204,6 +205,29 @@ example :
     let t : List DNode := freshL Sc [.term 2 {} [] [49], .inner 11 {} [] [.term 16 {} [] [51]]]
     freshExplL t = true ∧ topOnly Xc {} t = true ∧ (validate Xc {} t).errs = [] ∧ (validate Xc {} t).evs.map (·.node.sid) = [5, 8] := by
   refine ⟨by decide +kernel, by decide +kernel, by decide +kernel, by decide +kernel⟩
+
+/-- **`valdiff_exact_partial` for trees in ANY flag state** (histories: old nodes, default-flagged nodes, new nodes — every schema, every
+variant, every option set, any depth) whose validation **only creates nodes, on the top level**, not user-ordered (`topCreates`,
+decidable), when no default-flagged non-presence container is at risk of going unrecorded (`npAtRiskL … = false`: no second instance of
+its schema node next to it — F179 a / F194 —, not a member of a case — F400 / F189): `lyd_diff_apply_all t (validateDiff t) = validate t`,
+and the change set has one node per recorded change.  Generalises `valdiff_exact_partial_fresh` from fresh data to every flag state: a
+`lyd_validate_new` that records nothing deletes nothing (`validateNew_quiet`: `newLoop_quiet`, `autodelStep_quiet`, `casesStep_quiet` — every
+victim of an auto-deletion yields a change event unless it is an empty non-presence container, and those are excluded by the risk
+predicate), its events are deletions (`validateNew_ops`), so below the top level nothing is recorded and nothing changes
+(`subtreeNode_quiet`). -/
+theorem valdiff_exact_partial_top (X : SchemaX) (o : VOpts) (fx : Diff.Fixes) (t : List DNode)
+    (hok : OkBelowL X.base X.top) (hrisk : npAtRiskL X true true t t = false) (htop : topCreates X o t = true)
+    (hv : (validate X o t).errs = []) (hpe : (o.present && t.isEmpty) = false) :
+    valdiffExact X o fx t = true ∧ ∃ D, validateDiff X o t = some D ∧ D.length = (validate X o t).evs.length :=
+  valdiff_top_any X o fx t hok hrisk htop hv hpe
+
+/-- non-vacuity (schema `Sc`): the OLD tree `[x, n { t }]` (no `LYD_NEW`: the state after an earlier validation whose defaults `u`, `da` the
+client has freed) — not fresh; the validation creates `u` and `da` again on the top level -/
+example :
+    let t : List DNode := [.term 2 {} [] [49], .inner 11 {} [] [.term 16 {} [] [51]]]
+    freshExplL t = false ∧ npAtRiskL Xc true true t t = false ∧ topCreates Xc {} t = true ∧ (validate Xc {} t).errs = [] ∧
+    (validate Xc {} t).evs.map (·.node.sid) = [5, 8] := by
+  refine ⟨by decide +kernel, by decide +kernel, by decide +kernel, by decide +kernel, by decide +kernel⟩
 
 /-! ## not proved
 
